@@ -92,6 +92,12 @@ pub fn decode_values(k: Kind, tier: Tier) -> Vec<Vec<u8>> {
             out.push((0..len).map(|i| (i * 7 + 1) as u8).collect());
         }
     }
+    if text_like {
+        // every text of the encode side (decorated, protocol-meaningful, multi-byte) as a wire value
+        for (v, _) in encode_values(k, 1) {
+            out.push(v);
+        }
+    }
     match k {
         Kind::ErrorCode => {
             for reason in [&b""[..], b"x", &[0xC3u8][..], &[b'a'; 763][..], &[b'a'; 764][..], "\u{2603}".as_bytes(), &[b'a'; 127][..], &[b'a'; 128][..]] {
@@ -206,6 +212,18 @@ pub fn encode_values(k: Kind, seed: u64) -> Vec<(Vec<u8>, u128)> {
             }
             push(b"a:b c\t\"quoted\"".to_vec());
             // decorated texts: code that trims, unquotes or otherwise "cleans" a text on one path shows here
+            // texts that mean something to the protocol: the RFC 8489 nonce cookie with well-formed,
+            // short and ill-formed security-feature bits, the RFC 5769 vectors, user:realm:pass shapes,
+            // host names, IP literals, reason phrases, percent / base64 / hex looking values
+            for d in [
+                "obMatJos2", "obMatJos2A", "obMatJos2AAA", "obMatJos2AAAA", "obMatJos2AAAC", "obMatJos2gAAA", "obMatJos2////", "obMatJos2-_==", "obMatJos2AAA=", "obMatJos2AAA\u{e9}",
+                "obMatJos2AAACf//499k954d6OL34oL9FSTvy64sA", "obMatJos2.session.5f3a", "obMatJos", "ObMatJos2AAAA", " obMatJos2AAAA", "f//499k954d6OL34oL9FSTvy64sA",
+                "STUN test client", "test vector", "evtj:h6vY", "\u{30DE}\u{30C8}\u{30EA}\u{30C3}\u{30AF}\u{30B9}", "example.org", "user:realm:pass", "user:", ":", "a::b",
+                "anonymous", "192.0.2.1", "[2001:db8::1]", "[::1]:3478", "stun.example.org.", "xn--nxasmq6b.example", "EXAMPLE.ORG", "example..org", "-example.org", "localhost",
+                "Unauthorized", "Stale Nonce", "Try Alternate", "Unknown Attribute", "Bad Request", "Server Error", "%41%00", "dGVzdA==", "0x8022", "\\", "a\\\"b", "null", "None", "true",
+            ] {
+                push(d.as_bytes().to_vec());
+            }
             for d in ["\"quoted\"", "\"\"", "\"", "'single'", " padded ", "trailing.", "MiXeD Case", "\"a\"b\"", "<angle>", "with\u{a0}nbsp", "\u{feff}bom", "e\u{301}combining"] {
                 push(d.as_bytes().to_vec());
             }
